@@ -711,9 +711,32 @@ class LibMixin:
     def lib_id(self, a, kw, run, node):
         return id(a[0])
 
+    def py_repr(self, v):
+        """repr() of a concrete value built from constants (dict / list / tuple nests), else None."""
+        if isinstance(v, (int, str, bytes, float)) or v is None:
+            return repr(v)
+        if isinstance(v, DictV) and not v.may:
+            parts = []
+            for k, x in v.d.items():
+                rk, rx = self.py_repr(k), self.py_repr(x)
+                if rk is None or rx is None:
+                    return None
+                parts.append(f"{rk}: {rx}")
+            return "{" + ", ".join(parts) + "}"
+        if isinstance(v, (ListV, tuple)):
+            items = v.items if isinstance(v, ListV) else v
+            rs = [self.py_repr(x) for x in items]
+            if any(r is None for r in rs) or (isinstance(v, ListV) and v.may):
+                return None
+            if isinstance(v, ListV):
+                return "[" + ", ".join(rs) + "]"
+            return "(" + ", ".join(rs) + ("," if len(rs) == 1 else "") + ")"
+        return None
+
     def lib_repr(self, a, kw, run, node):
-        if isinstance(a[0], (int, str, bytes, float)) or a[0] is None:
-            return repr(a[0])
+        r = self.py_repr(a[0])
+        if r is not None:
+            return r
         return Sym(("repr", term_of(a[0])), "str")
 
     def lib_classmethod(self, a, kw, run, node):
